@@ -427,7 +427,7 @@ var states = []string{"idle", "mid", "zero-c2s", "zero-s2c", "long-c2s", "long-s
 func (P) Gen(r *core.Rand, tier string, emit func([]string)) {
 	rounds := 1
 	if tier == "thorough" {
-		rounds = 16
+		rounds = 32
 	}
 	for i := 0; i < rounds; i++ {
 		for _, st := range states {
